@@ -8,7 +8,8 @@ LEVEL = "model_checking"
 def run(tier, rep, work):
     d = C.stage_specs(work.sub("tla"))
     quick = tier == "quick"
-    storefam.model_check(rep, d, "StoreIdeal", "intended design: DurableAfterReopen is AckedVisible after Open (expect := durable), NoReuse, NoOverwrite")
+    storefam.model_check(rep, d, "StoreIdeal", "intended design: DurableAfterReopen is AckedVisible after Open (expect := durable), NoReuse, NoOverwrite",
+                         override=dict(MaxCrash=0) if quick else None)
     exe = C.build_harness()
     n = 40 if quick else 400
     # no compaction in these histories (threshold out of reach): (add* [Flush])* Close; reopen with fresh templates, several sessions
